@@ -229,7 +229,7 @@ type VerifConnState struct {
 	InMsgs   int
 	InFrags  int
 	OutFrags int
-	Inbound  int
+	Inbound  int // bytes kept in the inbound ring buffer (c.buffer is stale between read events)
 	Outbound int
 	MsgDone  []bool
 }
@@ -239,7 +239,7 @@ func (v *VerifLoop) Snapshot() map[int]VerifConnState {
 	out := make(map[int]VerifConnState)
 	for fd, c := range v.el.connections {
 		s := VerifConnState{Fd: fd, Client: c.connType == ConnClient, Opened: c.opened,
-			Inbound: c.InboundBuffered(), Outbound: c.OutboundBuffered()}
+			Inbound: c.inboundBuffer.Buffered(), Outbound: c.OutboundBuffered()}
 		if c.inMsgQueue != nil {
 			s.InMsgs = c.inMsgQueue.count
 			for m := c.inMsgQueue.head; m != nil; m = m.prev {
